@@ -18,6 +18,7 @@ fn main() {
         "order-probe" => order::run(rest),
         "dense-check" => dense::run(rest),
         "xmatrix" => matrix::run(rest),
+        "matrix-oracle" => matrix::oracle(rest),
         other => {
             eprintln!("unknown subcommand {other}");
             std::process::exit(2);
